@@ -144,6 +144,17 @@ PROPS = {
              "and repaired: the unmapped 2-1-19-21 channel. Known finding: unmapped DuckDB errors fall through raw.",
         note="Does not decide which DuckDB errors can occur for well-typed inputs; dictionary lookups keyed by script names are not "
              "traced back to their semantic checks."),
+
+    "C01": dict(
+        claimed=True, design="§3 C01",
+        technique="operator-registry extraction (loops unrolled, generators lowered) + SQL expression parser + nullness abstract interpretation through macro bodies + exact three-valued evaluation vs Kleene tables + semantic-token vs SQL-generation-path comparison",
+        text="Decides four structural clauses of the element-wise operator property for every operator at once: each token accepted by "
+             "semantic analysis has an SQL generation path; every element-wise SQL template (and every macro it calls) yields NULL when an "
+             "operand is NULL; and/or/xor/not have the VTL three-valued truth tables; division by zero travels from the DIV template "
+             "through error() to a catalogued runtime error; dataset-level if-then-else treats a null condition as else in its row "
+             "filters. The values DuckDB computes (that + adds, that joins match the right rows) are not decided.",
+        note="Trusts SQL semantics of DuckDB's scalar functions (NULL in -> NULL out), COALESCE, CASE, AND/OR. VTL's null rules are an "
+             "oracle table in the checker. Found and repaired: null-condition row filter of if-then-else."),
 }
 
 NA_REASONS = {
